@@ -58,9 +58,9 @@ NOT_COVERED = ["the loaders above the s3file layer (bin_mdef_read_s3file, tmat_i
                "single byte / single word damage) -- labelled bounded, never counted as proved",
                "senone_init / mixture_weights / senmgau / feature_transform (lda) loaders: no such file in the bundled models, exercised only through the 'file missing' path",
                "text mdef reader (mdef.c): ~40 E_FATAL sites remain for damaged TEXT model definitions (not a bundled file format; only the three exits taken for binary / missing / empty files were repaired)",
-               "damaged values in feat_params.json reach E_FATAL in cmn.c / feat.c / fe_sigproc.c: recorded known findings",
+               "feat_params.json: value damage is enumerated byte-wise only (4 replacement values per byte); the E_FATAL sites it reached in cmn.c / feat.c / fe_sigproc.c were repaired, cmn_live.c still exits on varnorm + live CMN (a configuration the library rejects by design)",
                "multi-field damage (two counts changed consistently), damage inside the floating-point payload beyond what the checksum catches"]
 CLAIM = dict(
     text="The s3file layer every model loader reads through is under contract: s3file_nextline/nextword (loop invariants, termination) and s3file_get (with byte-swap loops) never read outside the file for files of any length up to 1 MB; s3file_get_2d/_3d/verify_chksum are proved against the callee contracts to report failure through the return value, never reaching exit(), never allocating more than the file could fill and never building row pointers outside the data block. The whole chain (real get/get_1d/get_2d/get_3d, byte-level copies) is additionally checked on every file of <= 12..20 symbolic bytes (bounded) and the header parser on every file of <= 5 bytes over a 15-letter alphabet by native enumeration under ASan, which found two further genuine defects. The loaders above this layer are NOT covered. Above that layer the loaders themselves (tmat, means/variances, sendump through ptm/s2_semi, binary mdef, and decoder_init from memory-mapped files with the intact model loaded afterwards in the same process) are NOT under contract; they are decided by a bounded native fault enumeration over the two bundled models (about 17 000 damaged files per quick run: truncations, header bytes, count words; each in a forked child under AddressSanitizer with exit() trapped), which found and now guards five further defects that were repaired.",
-    note="contracts on the s3file layer only; loaders (mdef, tmat, gauden, sendump, mgau init, acmod_load_am) decided by a bounded native fault enumeration under ASan (not proof); get_1d by bounded check only; eight genuine defects fixed (3 in s3file, 5 in the loaders), 3 known findings (feat_params.json values reaching E_FATAL); trusted: CBMC 6.11, ASan",
+    note="contracts on the s3file layer only; loaders (mdef, tmat, gauden, sendump, mgau init, acmod_load_am) decided by a bounded native fault enumeration under ASan (not proof); get_1d by bounded check only; ten genuine defects fixed (3 in s3file, 5 in the loaders, 2 in configuration-value validation reached from feat_params.json); trusted: CBMC 6.11, ASan",
     technique="CBMC function + loop contracts (goto-instrument --dfcc) with pointer-offset invariants on the s3file layer; bounded whole-file CBMC runs with unwinding assertions as stand-in for get_1d/parse_header; bounded native fault enumeration under ASan as stand-in for the loaders; counterexamples replayed natively")
